@@ -2,8 +2,8 @@
 import os
 from tools.py2lean import gen_c12
 
-LEAN_TARGETS = ["EasyFEAVerif.Props.C12"]
-PROPS_MODULES = ["EasyFEAVerif.Props.C12"]
+LEAN_TARGETS = ["EasyFEAVerif.Props.C12", "EasyFEAVerif.Props.C12Typing"]
+PROPS_MODULES = ["EasyFEAVerif.Props.C12", "EasyFEAVerif.Props.C12Typing"]
 TRUSTED_EXTRA = [
     "C12: numpy broadcasting, einsum and the ndarray subclass protocols are external; the alignment/dispatch logic of FeArray is validated against explicit (e, p) loops on every run, not proved",
 ]
